@@ -235,7 +235,7 @@ def run_sync(ctx, P):
             ctx.hist("verdicts", verdict)
             ctx.count(shape_of(trace))
             if viol != "-" or lost or verdict == "deadlock":
-                kind = "panic" if "panic" in viol else "exclusion" if "exclusion" in viol else (P["trykind"] if "try:" in viol else ("deadlock" if verdict == "deadlock" else "lost-update"))
+                kind = "panic" if "panic" in viol else "exclusion" if "exclusion" in viol else "debug-format" if viol.startswith("debug-format:") else (P["trykind"] if "try:" in viol else ("deadlock" if verdict == "deadlock" else "lost-update"))
                 ctx.violation({"kind": kind}, {"case": c, "verdict": verdict, "oracle": viol, "lost_update": lost,
                                                 "trace": trace.split(" ; ")[-P["tail"]:],
                                                 "how_to_replay": "echo '%s' | %s" % (c, exe)})
@@ -275,12 +275,14 @@ def run_sync(ctx, P):
         ctx.violation({"kind": "futex-probe-failed"}, {"detail": detail}, no_input=True)
         wait_p, wake_p = table["wait_private"], not table["wait_private"]  # makes futexKeyOk fail
     sync_extract.write_observed(P["obs_module"], rows, spin, wait_p, wake_p)
-    understood, mism, notes = sync_extract.static_vs_observed(table["tables"][P["table"]], P["lock_locs"], obs)
+    # the atomics of the file, lock word first — which is also the order in which the running code first touches them
+    tie["atomics"] = table["lock_locs"][P["table"]]
+    understood, mism, notes = sync_extract.static_vs_observed(table["tables"][P["table"]], table["lock_locs"][P["table"]], obs)
     tie["static_orderings_understood"] = understood
     if notes:
         tie["static_not_understood_because"] = notes
     tie["configuration_source"] = ("static site table (roles, all orderings literal) and run-time observation, which agree" if understood and not mism
-                                   else "run-time observation only: the static table has orderings that are not literals/aliases" if not understood
+                                   else "run-time observation only: the static table was not understood (see static_not_understood_because)" if not understood
                                    else "static table and observation DISAGREE")
 
     # ---- the theorems, with the obligations of tie T over the regenerated Gen files
@@ -344,5 +346,5 @@ def run(ctx):
     run_sync(ctx, {
         "which": "mutex", "what": "lock()/unlock()", "cases": mutex_cases, "trykind": "try_lock", "tail": 60,
         "spin_key": "mutex_spin", "infer_spin": infer_spin_mutex, "obs_module": "MutexObs", "table": "mutex",
-        "lock_locs": ["futex"], "module": "TinyVerif.Props.C01", "driver": "drv_c01", "corr": "mutex-trace",
+        "module": "TinyVerif.Props.C01", "driver": "drv_c01", "corr": "mutex-trace",
     })
